@@ -29,9 +29,9 @@ Theorem C04_atomic_section_linearizable :
 Proof. exact @atomic_machine_linearizable. Qed.
 Print Assumptions C04_atomic_section_linearizable.
 
-(* ... which covers today's single-critical-section methods of MemMapFs (Create, Open, Stat,
-   Remove, Rename, Chown, and every file I/O method under the file mutex), whatever the shape
-   of the other methods: *)
+(* ... which covers the single-critical-section methods of MemMapFs (Create, Open, Stat,
+   Remove, Rename, Chown, and every file I/O method under the file mutex except Readdirnames,
+   which has its own switch), whatever the shape of the other methods: *)
 Theorem C04_single_section_methods_atomic : forall k c,
   ln_single_today (snd c) = true -> lin_atomic_op lin_step (ln_sec k) LnStart c.
 Proof. exact ln_single_today_atomic. Qed.
@@ -86,20 +86,51 @@ Theorem C04_refuted_chtimes_rename : forall k, sc_chtimes_split k = true ->
 Proof. exact refuted_chtimes_rename. Qed.
 Print Assumptions C04_refuted_chtimes_rename.
 
+(* Readdirnames on an open directory handle ‖ Rename of a child out of that directory, when the
+   names are read after the directory's locked section: the listing is ["g"], a name /d never had *)
+Theorem C04_refuted_readdirnames_rename : forall k, sc_rdnames_split k = true ->
+  exists hist fin, produced_by_sections k w6_s0 hist fin /\
+    lin_check_mem w6_s0 hist fin = false /\ ~ linearizable lin_step lin_obs w6_s0 hist fin.
+Proof. exact refuted_readdirnames_rename. Qed.
+Print Assumptions C04_refuted_readdirnames_rename.
+
+(* OpenFile(O_WRONLY|O_CREATE|O_TRUNC) ‖ Chtimes on the name it creates, when the truncation runs
+   after the locked lookup/creation section: Chtimes returns ok after the creation, yet the file
+   ends with the truncation's time stamp *)
+Theorem C04_refuted_openfile_trunc : forall k, sc_open_split k = false -> sc_open_finish k = true ->
+  exists hist fin, produced_by_sections k lin_init hist fin /\
+    lin_check_mem lin_init hist fin = false /\ ~ linearizable lin_step lin_obs lin_init hist fin.
+Proof. exact refuted_openfile_trunc. Qed.
+Print Assumptions C04_refuted_openfile_trunc.
+
 (* THE CODE AS IT IS TODAY (constants regenerated from memmap.go on every check): for each of the
    three methods, either its refutation applies, or — once it is repaired — it belongs to the
    fragment of C04_sections_linearizable.  The same proof script covers both states. *)
 Theorem C04_today_openfile :
-  if sc_open_split ln_cfg_today
+  if sc_open_split ln_cfg_today || sc_open_finish ln_cfg_today
   then exists hist fin, produced_by_sections ln_cfg_today lin_init hist fin /\
          ~ linearizable lin_step lin_obs lin_init hist fin
   else forall p flag perm, ln_lin_ok ln_cfg_today (OpenFile p flag perm) = true.
 Proof.
-  destruct (sc_open_split ln_cfg_today) eqn:E.
+  destruct (sc_open_split ln_cfg_today) eqn:E; cbn [orb].
   - destruct (refuted_excl_create _ E) as (h & f & H1 & _ & H3). now exists h, f.
-  - intros. cbn [ln_lin_ok]. now rewrite E.
+  - destruct (sc_open_finish ln_cfg_today) eqn:E2.
+    + destruct (refuted_openfile_trunc _ E E2) as (h & f & H1 & _ & H3). now exists h, f.
+    + intros. cbn [ln_lin_ok]. now rewrite E, E2.
 Qed.
 Print Assumptions C04_today_openfile.
+
+Theorem C04_today_readdirnames :
+  if sc_rdnames_split ln_cfg_today
+  then exists hist fin, produced_by_sections ln_cfg_today w6_s0 hist fin /\
+         ~ linearizable lin_step lin_obs w6_s0 hist fin
+  else forall h n, ln_lin_ok ln_cfg_today (HReaddirnames h n) = true.
+Proof.
+  destruct (sc_rdnames_split ln_cfg_today) eqn:E.
+  - destruct (refuted_readdirnames_rename _ E) as (h & f & H1 & _ & H3). now exists h, f.
+  - intros. cbn [ln_lin_ok]. now rewrite E.
+Qed.
+Print Assumptions C04_today_readdirnames.
 
 Theorem C04_today_mkdir :
   if sc_mkdir_setmode ln_cfg_today
@@ -145,6 +176,34 @@ Proof.
 Qed.
 Print Assumptions C04_today_chmod_chtimes.
 
+(* TODAY'S (repaired) CODE, as facts about the regenerated constants: OpenFile finishes its
+   handle inside its locked section, Readdirnames takes the names inside the directory's locked
+   section, and so does every other switch stand in its one-section position.  A library change
+   that re-opens one of these windows flips a constant and breaks these proofs. *)
+Theorem C04_today_openfile_one_section :
+  sc_open_split ln_cfg_today = false /\ sc_open_finish ln_cfg_today = false.
+Proof. split; reflexivity. Qed.
+Print Assumptions C04_today_openfile_one_section.
+
+Theorem C04_today_readdirnames_locked : sc_rdnames_split ln_cfg_today = false.
+Proof. reflexivity. Qed.
+Print Assumptions C04_today_readdirnames_locked.
+
+(* hence EVERY history of the section machine of today's code — any goroutines, calls, schedule —
+   is linearizable *)
+Theorem C04_today_all_one_section :
+  sc_open_split ln_cfg_today = false /\ sc_mkdir_setmode ln_cfg_today = false /\ sc_rmall_split ln_cfg_today = false /\
+  sc_chmod_split ln_cfg_today = false /\ sc_chtimes_split ln_cfg_today = false /\
+  sc_open_finish ln_cfg_today = false /\ sc_rdnames_split ln_cfg_today = false.
+Proof. repeat split; reflexivity. Qed.
+Print Assumptions C04_today_all_one_section.
+
+Theorem C04_today_linearizable : forall s0 progs sched hist,
+  Permutation hist (lg_lin (ln_run ln_cfg_today s0 progs sched)) ->
+  linearizable lin_step lin_obs s0 hist (lin_obs (lg_st (ln_run ln_cfg_today s0 progs sched))).
+Proof. intros s0 progs sched hist. apply sections_linearizable. intros p c _ _. destruct c as [slot o]. destruct o; reflexivity. Qed.
+Print Assumptions C04_today_linearizable.
+
 (* "Exactly one of several concurrent Mkdir calls for the same name succeeds": ANY number of
    threads, each calling Mkdir of one free (normalised) name with any permissions, under ANY
    interleaving of their sections, whatever the configuration: when all have returned, exactly
@@ -168,18 +227,19 @@ Print Assumptions C04_checker_correct.
 Example C04_cfg_today_value :
   (sc_open_split ln_cfg_today, sc_open_setmode ln_cfg_today, sc_mkdir_setmode ln_cfg_today, sc_rmall_split ln_cfg_today)
   = (Z.eqb lin_openfile_split 1, Z.eqb lin_openfile_setmode 1, Z.eqb lin_mkdir_setmode 1, negb (Z.eqb lin_removeall_locks 1))
-  /\ (sc_chmod_split ln_cfg_today, sc_chtimes_split ln_cfg_today) = (negb (Z.eqb lin_chmod_locks 1), negb (Z.eqb lin_chtimes_locks 1)).
-Proof. split; reflexivity. Qed.
+  /\ (sc_chmod_split ln_cfg_today, sc_chtimes_split ln_cfg_today) = (negb (Z.eqb lin_chmod_locks 1), negb (Z.eqb lin_chtimes_locks 1))
+  /\ (sc_open_finish ln_cfg_today, sc_rdnames_split ln_cfg_today) = (Z.eqb lin_openfile_finish_outside 1, Z.eqb lin_readdirnames_outside 1).
+Proof. repeat split; reflexivity. Qed.
 
 (* the excl-create witness: both calls return a handle; run one after the other the second
    gets "exists" *)
 Example C04_excl_witness_two_winners :
-  map lc_res (lg_lin (ln_run (mkCfg true true true true true true) lin_init w1_progs w1_sched)) = [RHandle 0; RHandle 0]
+  map lc_res (lg_lin (ln_run (mkCfg true true true true true true true true) lin_init w1_progs w1_sched)) = [RHandle 0; RHandle 0]
   /\ snd (lin_replay lin_step lin_init (concat w1_progs)) = [RHandle 0; RErr (EW KExist)].
 Proof. split; vm_compute; reflexivity. Qed.
 
 Example C04_mkdir_witness :
-  map (fun x => (lc_op x, lc_res x)) (lg_lin (ln_run (mkCfg true true true true true true) lin_init w2_progs w2_sched)) =
+  map (fun x => (lc_op x, lc_res x)) (lg_lin (ln_run (mkCfg true true true true true true true true) lin_init w2_progs w2_sched)) =
   [((None, Remove w_d), ROk); ((None, Mkdir w_d 493), RErr (EW KNotExist))].
 Proof. vm_compute. reflexivity. Qed.
 
@@ -192,8 +252,56 @@ Proof. split; vm_compute; reflexivity. Qed.
 
 (* three concurrent Mkdir of /d under an interleaved schedule: exactly one ok *)
 Example C04_mkdir_three :
-  cnt mk_won (lg_lin (ln_run (mkCfg true true true true true true) lin_init (mk_progs w_d [448; 493; 511])
+  cnt mk_won (lg_lin (ln_run (mkCfg true true true true true true true true) lin_init (mk_progs w_d [448; 493; 511])
       [0; 1; 2; 0; 1; 2; 2; 1; 0; 0; 1; 2; 0; 1; 2; 0; 1; 2]%nat)) = 1%nat
-  /\ lin_quiescent (ln_run (mkCfg true true true true true true) lin_init (mk_progs w_d [448; 493; 511])
+  /\ lin_quiescent (ln_run (mkCfg true true true true true true true true) lin_init (mk_progs w_d [448; 493; 511])
       [0; 1; 2; 0; 1; 2; 2; 1; 0; 0; 1; 2; 0; 1; 2; 0; 1; 2]%nat) = true.
 Proof. split; vm_compute; reflexivity. Qed.
+
+(* the Readdirnames witness: the listing is ["g"]; one after the other it is ["x"] or [] *)
+Example C04_readdirnames_witness :
+  map (fun x => (lc_op x, lc_res x)) (lg_lin (ln_run (mkCfg false false false false false false false true) w6_s0 w6_progs w6_sched)) =
+    [((None, Rename w_dx w_g), ROk); ((None, HReaddirnames 10 (-1)), RNames [[103%N]] None)]
+  /\ snd (lin_replay lin_step w6_s0 (concat w6_progs)) = [RNames [[120%N]] None; ROk]
+  /\ snd (lin_replay lin_step w6_s0 (concat (rev w6_progs))) = [ROk; RNames [] None].
+Proof. repeat split; vm_compute; reflexivity. Qed.
+
+(* the split Readdirnames run back to back is the specification's (for every state) *)
+Example C04_readdirnames_back_to_back : forall s i count,
+  m_step_raw s (HReaddirnames i count) =
+  match ln_rdn_list s i count with
+  | (s1, inl (refs, e)) => (s1, RNames (ln_rdn_names s1 refs) e)
+  | (s1, inr r) => (s1, r)
+  end.
+Proof. exact ln_rdn_back_to_back. Qed.
+
+(* the OpenFile witness: Chtimes ok, OpenFile a handle, /f ends with time "now"; one after the
+   other the file keeps Chtimes' 1000, or Chtimes does not find it *)
+Example C04_openfile_trunc_witness :
+  map e_mtime (lin_obs (lg_st (ln_run (mkCfg false false false false false false true false) lin_init w7_progs w7_sched))) = [BIG; BIG]
+  /\ map e_mtime (lin_obs (fst (lin_replay lin_step lin_init (concat w7_progs)))) = [BIG; 1000]
+  /\ snd (lin_replay lin_step lin_init (concat (rev w7_progs))) = [RErr (EW KNotExist); RHandle 0].
+Proof. repeat split; vm_compute; reflexivity. Qed.
+
+(* an OpenFile whose handle is finished outside its locked section, run ALONE, does what the
+   specification does: same results and same final tree for every flag word below, on an existing
+   file with content and on a free name, followed by a write through the new handle (which shows
+   the offset) *)
+Definition C04_flag_words : list Z :=
+  [0; 1; 2; 1024; 1025; 1026; 512; 513; 514; 1536; 1537; 1538; 64; 65; 66; 577; 578; 1089; 1090; 1601; 1602; 192; 194; 706].
+Definition C04_alone_setup : list lop :=
+  [(Some 1%nat, OpenFile w_f 66 420); (None, HWrite 1 [97; 98; 99]%N); (None, HClose 1)].
+Definition C04_alone_s0 : lstate := fst (lin_replay lin_step lin_init C04_alone_setup).
+Definition C04_alone (k : seccfg) (p : str) (flag : Z) :=
+  let c := ln_run k C04_alone_s0 [[(Some 10%nat, OpenFile p flag 384); (None, HWrite 10 [90; 90]%N)]] (repeat 0%nat 12) in
+  (map lc_res (lg_lin c), lin_obs (lg_st c), lin_quiescent c).
+Example C04_openfile_split_alone_is_sequential :
+  forallb (fun flag =>
+    let a := C04_alone (mkCfg false false false false false false true false) w_f flag in
+    let b := C04_alone ln_cfg_atomic w_f flag in
+    let a' := C04_alone (mkCfg false false false false false false true false) w_g flag in
+    let b' := C04_alone ln_cfg_atomic w_g flag in
+    lin_list_eqb lin_res_eqb (fst (fst a)) (fst (fst b)) && lin_obs_eqb (snd (fst a)) (snd (fst b)) && snd a && snd b &&
+    lin_list_eqb lin_res_eqb (fst (fst a')) (fst (fst b')) && lin_obs_eqb (snd (fst a')) (snd (fst b')) && snd a' && snd b')
+    C04_flag_words = true.
+Proof. vm_compute. reflexivity. Qed.
